@@ -331,7 +331,10 @@ impl World {
                     if nested { "(nested)" } else { "" },
                     res
                 ));
-                if res.is_ok() && self.st.borrow().close_called {
+                // (a dispatch that had begun to close but then stopped because the peer ended the
+                // read side took the "stops promptly" exit of C10, not the orderly one: the pending
+                // close, and with it the flush, is legitimately abandoned)
+                if res.is_ok() && self.st.borrow().close_called && !self.st.borrow().eof_seen {
                     self.st.borrow_mut().on_task_finished_orderly();
                 }
                 *self.dispatch_result.borrow_mut() = Some(res);
